@@ -22,6 +22,7 @@
 from __future__ import annotations
 
 import json
+import re
 import math
 from typing import Any, Optional
 
@@ -176,8 +177,8 @@ class Extern(FandangoParty):
         super().__init__(connection_mode=ConnectionMode.EXTERNAL)
 """
 
-B_KINDS = ["star", "plus", "open", "computed", "closed", "nested", "stdlib", "constrained", "io"]
-A_KINDS = ["stagnate", "stagnate2", "parse", "construct-io", "io-run", "solve", "twin"]
+B_KINDS = ["star", "plus", "open", "computed", "closed", "nested", "stdlib", "constrained", "io", "helper", "record"]
+A_KINDS = ["stagnate", "stagnate2", "parse", "construct-io", "io-run", "solve", "twin", "namesake", "helper-twin"]
 
 
 def _letters(rng, k: int) -> list[str]:
@@ -227,6 +228,23 @@ def gen_b(rng, kind: str) -> dict:
         b["io"] = True
         b["fuzz"] = None
         b["words"] = []
+    elif kind == "helper":
+        # Python part + an EXTRA constraint (handed to fuzz()) that reads it: anything cached per process under the
+        # constraint's text would carry another spec's definitions over (seeded change C18-2)
+        lim = rng.choice([100, 250, 500])
+        b["text"] = (f"LIMIT = {lim}\ndef small(v):\n    return int(v) < LIMIT\n"
+                     '<start> ::= <n>\n<n> ::= <d> <d> <d>\n<d> ::= "0" | "1" | "2" | "3" | "4" | "5" | "6" | "7" | "8" | "9"\n')
+        b["fuzz"] = dict(fuzz, settings={"extra_constraints": [rng.choice(["small(<n>)", "int(<n>) < LIMIT"])]})
+        b["words"] = ["007", "099", "250", "999", "12"]
+        b["limit"] = lim
+    elif kind == "record":
+        # several non-terminals under a constraint on the enclosing symbol: the search has to mutate failing subtrees
+        seps = " | ".join(f'"{c}"' for c in rng.sample(["=", ":", "<", ">", "~"], 4))
+        b["text"] = (f'<start> ::= <key> <sep> <value> <sep> <value>\n<key> ::= "k" <x>\n<sep> ::= {seps}\n'
+                     f'<value> ::= <x> <x> <x>\n<x> ::= {alts}\n'
+                     f'where str(<start>).count("{ls[0]}") >= 5\n')
+        b["words"] = ["k" + ls[0] + "=" + ls[0] * 3 + "=" + ls[0] * 3, "k" + ls[0]]
+        b["fuzz"] = dict(fuzz, desired=14, gens=rng.choice([9, 12]), pop=10)   # long enough for many mutations
     else:
         raise ValueError(kind)
     return b
@@ -262,6 +280,40 @@ def gen_a(rng, kind: str, b: dict) -> dict:
         steps.append({"do": "construct", "name": "A0", "stdlib": True,
                       "text": '<start> ::= <digit>+\nwhere int(<start>) % 7 == 3\n'})
         steps.append({"do": "fuzz", "name": "A0", "seed": rng.randint(0, 999), "desired": 5, "gens": 4, "pop": 10})
+    elif kind == "namesake":
+        # the same non-terminal NAMES as B with other rules (every choice reduced to its first alternative) and a
+        # constraint nothing satisfies, so that the search operators work on A's trees (seeded change C18-1: a memo
+        # on the shared default mutation operator keyed by the non-terminal's name)
+        rules = [re.match(r"(<[^>]+>) ::= (.*)$", ln) for ln in b["text"].split("\n")]
+        choice = [m.group(1) for m in rules if m and m.group(1) != "<start>" and " | " in m.group(2)
+                  and ":=" not in m.group(2) and "(" not in m.group(2)]
+        # a proper, non-empty subset of the choices becomes a fixed token (all of them: nothing is left to tell apart)
+        fixed = set(rng.sample(choice, max(1, len(choice) // 2))) if choice else set()
+        lines = []
+        for ln in b["text"].split("\n"):
+            m = re.match(r"(<[^>]+>) ::= (.*)$", ln)
+            if m and m.group(1) in fixed:
+                ln = f"{m.group(1)} ::= {m.group(2).split(' | ')[0]}"
+            if ln.startswith("where "):
+                continue
+            lines.append(ln)
+        text = "\n".join(lines).rstrip("\n") + '\nwhere str(<start>) == "@never@"\n'
+        steps.append({"do": "construct", "name": "A0", "text": text, "stdlib": b["stdlib"]})
+        if not b["io"]:
+            steps.append({"do": "fuzz", "name": "A0", "seed": rng.randint(0, 999), "desired": 1,
+                          "gens": rng.choice([4, 6]), "pop": rng.choice([8, 10])})
+    elif kind == "helper-twin":
+        # the same grammar and the same extra-constraint TEXT as B, other definitions in the Python part
+        if b["kind"] == "helper":
+            text = b["text"].replace(f"LIMIT = {b['limit']}", "LIMIT = 1000").replace("< LIMIT", ">= LIMIT - 100")
+            steps.append({"do": "construct", "name": "A0", "text": text, "stdlib": False})
+            steps.append({"do": "fuzz", "name": "A0", "seed": rng.randint(0, 999), "desired": 4, "gens": 3, "pop": 8,
+                          "settings": dict(b["fuzz"]["settings"])})
+        else:
+            steps.append({"do": "construct", "name": "A0", "text": b["text"], "stdlib": b["stdlib"]})
+            if not b["io"]:
+                steps.append({"do": "fuzz", "name": "A0", "seed": rng.randint(0, 999), "desired": 4, "gens": 3, "pop": 8,
+                              "settings": {"extra_constraints": ["len(str(<start>)) >= 1"]}})
     elif kind == "twin":
         steps.append({"do": "construct", "name": "A0", "text": b["text"], "stdlib": b["stdlib"]})
         if b["io"]:
@@ -398,7 +450,10 @@ def plan(run: Run, tier: str) -> list[dict]:
     corpus = [("open", "stagnate", "A-first"), ("star", "stagnate", "A-first"), ("closed", "stagnate", "A-first"),
               ("open", "stagnate", "B-first"), ("io", "construct-io", "B-first"), ("io", "io-run", "A-first"),
               ("star", "parse", "A-first"), ("computed", "stagnate2", "A-first"), ("stdlib", "twin", "A-first"),
-              ("nested", "twin", "B-first"), ("constrained", "solve", "A-first"), ("plus", "io-run", "B-first")]
+              ("nested", "twin", "B-first"), ("constrained", "solve", "A-first"), ("plus", "io-run", "B-first"),
+              ("helper", "helper-twin", "A-first"), ("record", "namesake", "A-first"), ("constrained", "namesake", "A-first"),
+              ("helper", "helper-twin", "A-first"), ("record", "namesake", "A-first"), ("record", "namesake", "A-first"),
+              ("record", "namesake", "A-first"), ("record", "namesake", "B-first")]
     for bk, ak, order in corpus:
         b = gen_b(rng, bk)
         pairs.append({"b": b, "a": gen_a(rng, ak, b), "order": order})
